@@ -20,13 +20,20 @@ func c16Hashes(t *rapid.T, l string, allowEmptyVal bool) map[int32]string {
 		}
 		return map[int32]string{}
 	}
-	vals := []string{"h1", "h2"}
+	// two well-formed lower-case digests per algorithm (1 MD5, 2 SHA-1, 3 SHA-256): what a hash value is when it is no
+	// digest of its algorithm, and whether such values "agree", is not part of the rule
+	vals := []string{"1", "2"}
 	if allowEmptyVal {
 		vals = append(vals, "")
 	}
 	m := map[int32]string{}
 	for i := 0; i < n; i++ {
-		m[int32(rapid.IntRange(1, 3).Draw(t, l+"a"))] = rapid.SampledFrom(vals).Draw(t, l+"v")
+		a := rapid.IntRange(1, 3).Draw(t, l+"a")
+		v := rapid.SampledFrom(vals).Draw(t, l+"v")
+		if v != "" {
+			v = strings.Repeat(v+"a", []int{0, 16, 20, 32}[a])
+		}
+		m[int32(a)] = v
 	}
 	return m
 }
